@@ -340,6 +340,24 @@ fn native_spec() {
                 Err(e) => println!("SPEC-REPLAY MISMATCH target=react_delimiter case={argv:?}: rejected as {:?}", e.kind()),
             }
         }
+        // ... and with dont_delimit_trailing_values every value after `--` is kept whole, values before it are split
+        for (argv, want) in [
+            (vec!["p", "--", "c,d"], vec!["c,d"]),
+            (vec!["p", "a,b", "--", "c,d"], vec!["a", "b", "c,d"]),
+            (vec!["p", "a,b", "c", "--", "c,d", "e,f"], vec!["a", "b", "c", "c,d", "e,f"]),
+            (vec!["p", "a,b", "c,d"], vec!["a", "b", "c", "d"]),
+        ] {
+            let cmd = Command::new("p").dont_delimit_trailing_values(true).arg(Arg::new("files").num_args(1..).value_delimiter(',').action(ArgAction::Append));
+            match cmd.try_get_matches_from(argv.clone()) {
+                Ok(m) => {
+                    let got: Vec<String> = m.get_many::<String>("files").map(|v| v.cloned().collect()).unwrap_or_default();
+                    if got != want {
+                        println!("SPEC-REPLAY MISMATCH target=react_delimiter case={argv:?} with dont_delimit_trailing_values and value_delimiter(','): values {got:?}, expected {want:?}");
+                    }
+                }
+                Err(e) => println!("SPEC-REPLAY MISMATCH target=react_delimiter case={argv:?} (dont_delimit_trailing_values): rejected as {:?}", e.kind()),
+            }
+        }
     } else if target == "remove_overrides" {
         // C07: an argument that overrides another removes the other's earlier occurrences, in either
         // order of appearance, and ALL overriders are removed when the overridden one appears later
@@ -397,6 +415,28 @@ fn native_spec() {
             }
         }
         let _ = std::panic::take_hook();
+    } else if target == "hyphen_value_guard" {
+        // C02/C08: an argument that is being filled and allows hyphen values takes flag-looking tokens as values,
+        // whether it is an option or a positional, whether the token is long or short, known or unknown
+        for pending in ["opt", "pos"] {
+            for tok in ["--flag", "-f", "--unknown", "-x", "--flag=1"] {
+                let cmd = Command::new("p")
+                    .arg(Arg::new("flag").long("flag").short('f').action(ArgAction::SetTrue))
+                    .arg(Arg::new("opt").long("opt").num_args(1..).allow_hyphen_values(pending == "opt").action(ArgAction::Append))
+                    .arg(Arg::new("files").index(1).num_args(1..).allow_hyphen_values(pending == "pos").action(ArgAction::Append));
+                let argv: Vec<&str> = if pending == "opt" { vec!["p", "--opt", "v0", tok, "v1"] } else { vec!["p", "v0", tok, "v1"] };
+                let id = if pending == "opt" { "opt" } else { "files" };
+                match cmd.try_get_matches_from(argv.clone()) {
+                    Ok(m) => {
+                        let got: Vec<String> = m.get_many::<String>(id).map(|v| v.cloned().collect()).unwrap_or_default();
+                        if got != ["v0", tok, "v1"] || m.get_flag("flag") {
+                            println!("SPEC-REPLAY MISMATCH target=hyphen_value_guard case=pending={pending} argv={argv:?}: values={got:?} flag={}", m.get_flag("flag"));
+                        }
+                    }
+                    Err(e) => println!("SPEC-REPLAY MISMATCH target=hyphen_value_guard case=pending={pending} argv={argv:?}: rejected with {:?}", e.kind()),
+                }
+            }
+        }
     } else if target == "match_arg_error" {
         // C10: the error kind names a rule the input really breaks
         for acws in [false, true] {
